@@ -124,6 +124,9 @@ type RouteConfig struct {
 	CreateConnFn           CreateConnFunc
 	ChooseEndpointFn       ChooseEndpointFunc
 	CreateConnByEndpointFn CreateConnByEndpointFunc
+
+	// registrationID distinguishes successive registrations of the same route.
+	registrationID uint64
 }
 
 // listen for a new domain name, if rewriteHost is not empty and rewriteHost func is not nil,
